@@ -37,7 +37,19 @@ RULE = ("Rule-based state machine over one prysm.interferogram.Interferogram.  I
         "skipped when the harness' own design matrix is worse conditioned than 1e4; array arguments (masks, in every "
         "layout; 0-d plate scales) must come back unchanged; an untouched twin Interferogram on the same grid (same shape, "
         "same dx, re-created after every shape / unit change) must keep its coordinates bit for bit while the live object "
-        "is processed (no state shared between objects).")
+        "is processed (no state shared between objects).  Refused requests (op fail, ~10% of all draws): a request that the library "
+        "refuses with an exception, which the harness catches the way a caller would, after which the history goes on - pad to a "
+        "frame that is smaller than the data along at least one axis (shape as int / tuple / list, smaller on both axes, smaller on "
+        "one and larger on the other, 'pad to n x n' with n between the two axis lengths of non-square data; negative samples as "
+        "int / per axis), pad with neither / both of samples and shape, pad to a larger frame with a fill value that is not a number, latcal with None / a string / a complex number / a dict, "
+        "filter with an unknown type string / None / a scalar cut-off for a band filter (also on data with invalid samples and with "
+        "dx == 0: the request fails before the data is touched), mask with a mask of another shape / 1-D / None, fill and "
+        "spike_clip with a non-number, pvr() on non-square data (reads r and t, then raises; like a refused filter it counts as a coordinate read).  Nothing is asserted about the "
+        "refused request itself; the model then takes over the dx the object reports (which must be a finite real scalar >= 0) and, for steps that claim "
+        "to change shape / validity (pad, mask, fill, spike_clip), the data's shape and valid set; steps that do not claim to "
+        "change validity must have left it alone.  Every invariant above (coordinate shapes, spacing, polar = polar of the current "
+        "Cartesian, read-order independence, statistics, untouched twin) is then asserted after the refused request and after "
+        "every later step.  If such a request is accepted instead, nothing is asserted for the rest of that history (counted).")
 ASSUMPTIONS = ["numpy.linalg.lstsq / svd, numpy.hypot / arctan2 and copy.deepcopy are correct",
                "a deep copy of an Interferogram exposes the same coordinates as the original would at that moment",
                "data never contains +-inf (the generator never produces it), so 'invalid' == NaN == not finite",
@@ -46,7 +58,9 @@ ASSUMPTIONS = ["numpy.linalg.lstsq / svd, numpy.hypot / arctan2 and copy.deepcop
                "integer-typed phase arrays are not generated: they cannot hold the NaN that marks an invalid sample and every mutator of the "
                "unchanged class refuses them (mask / spike_clip / pad(nan) / remove_* raise a casting error)",
                "re-assigning the public attribute `data` with an element-for-element equal array in another memory layout is a neutral user action",
-               "whether crop() returns None or self is not part of the property and is not asserted"]
+               "whether crop() returns None or self is not part of the property and is not asserted",
+               "a refused request may leave the object with another dx than before (latcal of the unchanged code strips the calibration, dx = 1, before the "
+               "multiplication by the unusable plate scale fails): the property only demands that the coordinates are spaced by the dx the object then reports"]
 
 MAXN = {'quick': 24, 'thorough': 40}
 GROW = 72          # pad is a no-op once an axis would exceed this (keeps cost bounded)
@@ -184,6 +198,7 @@ def strat_init(tier):
 
 
 COORDS = ['x', 'y', 'r', 't']
+FAIL_PAD_FORMS = ['shape-int', 'shape-int-between', 'shape', 'shape', 'shape-list', 'samples', 'samples', 'samples-int', 'noargs', 'both', 'bad-value']
 
 
 def strat_op(tier):
@@ -205,9 +220,23 @@ def strat_op(tier):
     filt = st.fixed_dictionaries({'op': st.just('filter'), 'frac': st.tuples(frac, frac).map(list),
                                   'typ': st.sampled_from(['lp', 'hp', 'bp', 'br', 'lowpass', 'highpass', 'bandpass', 'bandreject'])})
 
+    # requests that the library refuses (class: exception raised and caught by the caller inside a history); see IfgModel.op_fail
+    dec = st.integers(-3, 3)
+    fail = st.one_of(
+        st.fixed_dictionaries({'op': st.just('fail'), 'what': st.just('pad'), 'form': st.sampled_from(FAIL_PAD_FORMS),
+                               'dec': st.tuples(dec, dec).map(list), 'value': st.sampled_from([None, None, 0.0, 1.5])}),
+        st.fixed_dictionaries({'op': st.just('fail'), 'what': st.just('latcal'), 'arg': st.sampled_from(['none', 'str', 'complex', 'dict'])}),
+        st.fixed_dictionaries({'op': st.just('fail'), 'what': st.just('filter'), 'frac': frac,
+                               'typ': st.sampled_from(['xx', '', 'notch', 'LP ', 'none', 'bp-scalar', 'br-scalar'])}),
+        st.fixed_dictionaries({'op': st.just('fail'), 'what': st.just('mask'), 'how': st.sampled_from(['rows+1', 'cols+1', 'rows-1', '1d', 'none'])}),
+        st.fixed_dictionaries({'op': st.just('fail'), 'what': st.just('fill'), 'arg': st.sampled_from(['str', 'dict'])}),
+        st.fixed_dictionaries({'op': st.just('fail'), 'what': st.just('spike_clip'), 'arg': st.sampled_from(['str', 'none'])}),
+        st.just({'op': 'fail', 'what': 'pvr'}),
+    )
+
     def simple(name):
         return st.just({'op': name})
-    table = {'read': read, 'pad': pad, 'crop': simple('crop'), 'mask': mask, 'fill': fill, 'spike_clip': spike,
+    table = {'fail': fail, 'read': read, 'pad': pad, 'crop': simple('crop'), 'mask': mask, 'fill': fill, 'spike_clip': spike,
              'remove_piston': simple('remove_piston'), 'remove_tiptilt': simple('remove_tiptilt'),
              'remove_power': simple('remove_power'), 'recenter': simple('recenter'), 'latcal': latcal,
              'strip_latcal': simple('strip_latcal'), 'filter': filt, 'relayout': relayout}
@@ -215,7 +244,7 @@ def strat_op(tier):
     # filter's precondition (no invalid sample) is met in a useful fraction of the histories
     weighted = (['read'] * 12 + ['pad'] * 3 + ['crop'] * 3 + ['mask'] * 3 + ['fill'] * 3 + ['spike_clip'] + ['remove_piston'] * 2 +
                 ['remove_tiptilt'] * 3 + ['remove_power'] * 3 + ['recenter'] * 2 + ['latcal'] * 2 + ['strip_latcal'] * 2 + ['filter'] * 3 +
-                ['relayout'] * 2)
+                ['relayout'] * 2 + ['fail'] * 5)
     return st.sampled_from(weighted).flatmap(lambda n: table[n])
 
 
@@ -294,6 +323,7 @@ class IfgModel:
         self.reads = set()
         self.last = 'init'
         self.nsteps = 0
+        self.dead = None         # set when an out-of-domain request was accepted: nothing is asserted from there on
         self.twin = None
         self._retwin()
         ctx.label('init:square' if ny == nx else 'init:nonsquare',
@@ -350,6 +380,8 @@ class IfgModel:
     # -- operations ------------------------------------------------------------------------------
     def apply(self, op):
         name = op['op']
+        if self.dead:
+            return self.ctx.label('op-after-accepted-invalid-request(not asserted)')
         self.nsteps += 1
         self.last = name
         self.ctx.label('op:' + name)
@@ -575,10 +607,126 @@ class IfgModel:
         self.ctx.label('filter:' + typ[:2 if len(typ) == 2 else 4])
         self.ctx.call(self.ifg.filter, fc, typ)
 
+    # -- requests the library refuses (exception raised, caught by the caller, history goes on) ---------
+    def _failing_request(self, op):
+        """(callable, args, kwargs, claims) for a request that the unchanged library refuses in the state of the moment, or None when
+        no such request of this kind exists in this state.  `claims` = the step is one that claims to change shape / validity."""
+        ifg, what = self.ifg, op['what']
+        ny, nx = self.shape
+        if what == 'pad':
+            form = op['form']
+            value = np.nan if op.get('value') is None else op['value']
+            if form == 'noargs':            # "Exactly one of samples or shape must be provided"
+                return ifg.pad, (value,), {}, True
+            if form == 'both':
+                return ifg.pad, (value,), {'samples': 1 + abs(op['dec'][0]), 'shape': (ny + 2, nx + 2)}, True
+            if form == 'bad-value':         # a frame that could be padded to, filled with something that is not a number
+                grow = (abs(int(op['dec'][0])), abs(int(op['dec'][1])) + 1)
+                if max(ny + grow[0], nx + grow[1]) > GROW:
+                    return None
+                self.ctx.label('refused-pad:fill-value-not-a-number')
+                return ifg.pad, ('abc' if op.get('value') is None else {},), {'samples': grow}, True
+            dy, dx_ = (int(v) for v in op['dec'])
+            if dy >= 0 and dx_ >= 0:        # at least one axis of the target is shorter than the data
+                dy = -1 - dy
+            if form in ('shape', 'shape-list'):
+                new = (ny + dy, nx + dx_)
+                kw = {'shape': new if form == 'shape' else list(new)}
+            elif form == 'samples':
+                new = (ny + dy, nx + dx_)
+                kw = {'samples': (dy, dx_)}
+            elif form == 'samples-int':
+                k = -max(1, abs(dy))
+                new = (ny + k, nx + k)
+                kw = {'samples': k}
+            elif form == 'shape-int-between':    # "pad to n x n" on non-square data: n is larger than one axis, smaller than the other
+                n = (ny + nx) // 2 if abs(ny - nx) >= 2 else max(ny, nx) - 1
+                new = (n, n)
+                kw = {'shape': int(n)}
+            else:
+                n = max(ny, nx) - max(1, abs(dy))
+                new = (n, n)
+                kw = {'shape': int(n)}
+            # refused by the unchanged code iff some axis of >= 2 samples would shrink (an axis of one sample broadcasts into an empty frame)
+            if not any(o < i and i >= 2 for o, i in zip(new, (ny, nx))):
+                return None
+            self.ctx.label('refused-pad:' + ('shrink-both' if new[0] < ny and new[1] < nx else
+                                             'shrink-one-grow-other' if (new[0] > ny or new[1] > nx) else 'shrink-one'))
+            return ifg.pad, (value,), kw, True
+        if what == 'latcal':
+            return ifg.latcal, ({'none': None, 'str': 'mm', 'complex': 1j, 'dict': {}}[op['arg']],), {}, False
+        if what == 'filter':
+            typ = op['typ']
+            fc = op['frac'] * (1.0 / (2.0 * self.dx) if self.dx > 0 else 1.0)
+            if typ in ('bp-scalar', 'br-scalar'):       # band filters need (lower, upper)
+                return ifg.filter, (fc, typ[:2]), {}, False
+            return ifg.filter, (fc, None if typ == 'none' else typ), {}, False
+        if what == 'mask':
+            how = op['how']
+            if how == 'none':
+                return ifg.mask, (None,), {}, True
+            if how == 'rows-1' and ny == 1:
+                return None                 # numpy accepts an empty (0, nx) boolean index on a (1, nx) array: not refused
+            shp = {'rows+1': (ny + 1, nx), 'cols+1': (ny, nx + 1), 'rows-1': (ny - 1, nx), '1d': (ny + 1,)}[how]
+            return ifg.mask, (np.ones(shp, dtype=bool),), {}, True
+        if what == 'fill':
+            return ifg.fill, ('abc' if op['arg'] == 'str' else {},), {}, True
+        if what == 'spike_clip':
+            return ifg.spike_clip, ('x' if op['arg'] == 'str' else None,), {}, True
+        if what == 'pvr':
+            if ny == nx:
+                return None                 # valid on square data
+            return ifg.pvr, (), {}, False
+        raise ValueError(what)
+
+    def op_fail(self, op):
+        """A request that is refused with an exception, which the caller catches; the history then goes on.  Nothing is asserted about
+        the request itself (not even that it is refused: if it is accepted nothing is asserted from there on).  Afterwards every
+        invariant of the property must hold for the object as it then reports itself: the model takes over the reported dx (a failed
+        latcal of the unchanged code leaves dx = 1), and - for steps that claim to change validity (pad, mask, fill, spike_clip) -
+        the data's shape and valid set of the moment; steps that do not claim to change validity must have left it as it was."""
+        ctx = self.ctx
+        what = op['what']
+        self.last = 'refused-' + what
+        req = self._failing_request(op)
+        if req is None:
+            return self._noop('fail', what + ':no-refusable-request-in-this-state')
+        fn, a, k, claims = req
+        try:
+            fn(*a, **k)
+        except Exception as e:   # noqa - the refusal is the point; what is raised is not asserted
+            raised = type(e).__name__
+        else:
+            self.dead = 'refused-%s accepted' % what
+            return ctx.label('refused:%s:ACCEPTED(nothing asserted from here on)' % what)
+        ctx.label('refused:%s:%s' % (what, raised), 'refused-after-read' if self.reads else 'refused-before-any-read')
+        if what in ('filter', 'pvr'):
+            self.reads.update(('r',) if what == 'filter' else ('r', 't'))      # both read the polar coordinates of the live object before they raise
+        d = self.ifg.data
+        ctx.require(isinstance(d, np.ndarray) and d.ndim == 2 and d.size > 0, 'data-shape:' + self.last,
+                    'after the refused %s the data is %s' % (what, 'an array of shape %s' % (d.shape,) if isinstance(d, np.ndarray) else type(d).__name__))
+        regrid = False
+        if claims and (d.shape != self.shape or not np.array_equal(np.isfinite(d), self.valid)):
+            ctx.label('refused:%s:data-changed(model follows)' % what)
+            regrid = d.shape != self.shape
+            self.valid = np.isfinite(d).copy()
+        dx = self.ifg.dx
+        ok = np.ndim(dx) == 0 and isinstance(dx, (int, float, np.integer, np.floating, np.ndarray)) and not isinstance(dx, bool)
+        ok = ok and np.asarray(dx).dtype.kind in 'fiu' and bool(np.isfinite(dx)) and float(dx) >= 0
+        ctx.require(ok, 'dx:' + self.last, 'after the refused %s the object reports dx = %r (model dx %r): no spacing the coordinates could have' % (what, dx, self.dx))
+        if float(dx) != self.dx:
+            ctx.label('refused:%s:dx-changed(model follows)' % what)
+            self.dx = float(dx)
+            regrid = True
+        if regrid:
+            self._retwin()
+
     # -- invariants ------------------------------------------------------------------------------
     def invariant(self):
         ctx = self.ctx
         last = self.last
+        if self.dead:
+            return
         i = self._observe()
         d = np.asarray(i.data)
         U.check_shape(d, self.shape, 'data-shape:' + last, 'data after %s' % last)
